@@ -8,9 +8,8 @@
    for the "head" (name[extras]specifier), which must already be canonically spelled
    (otherwise the model answers Unmodelled; T2 never compares those).
 
-   The declared meaning [meta_of] composes markers structurally (conjunction, with groups
-   where precedence needs them) - that is what setuptools itself does with extras_require
-   keys "extra", ":marker" and "extra:marker". *)
+   The declared meaning [meta_of] composes markers structurally (a conjunction of groups) - that
+   is what setuptools itself does with extras_require keys "extra", ":marker" and "extra:marker". *)
 From Coq Require Import List String Ascii Bool Arith NArith.
 From RC Require Import lib.PyStr lib.Pep440 lib.Name gen.HarvestC12Consts model.PathMapC12.
 Import ListNotations.
@@ -376,14 +375,24 @@ Fixpoint parse_all (ls : list string) : rres (list preq) :=
       end
   end.
 
-(* parse_req_with_marker (source.py:407-412): text composition, string-exact *)
+(* parse_req_with_marker: text composition, string-exact.  The requirement's own marker is
+   parenthesised; [marker] is a conjunction of parenthesised markers / atoms built by the caller *)
 Definition compose_text (req_str marker : string) : string :=
-  if containsb glue_test req_str then req_str ++ glue_and ++ marker else req_str ++ glue_semi ++ marker.
+  if containsb glue_test req_str then
+    match partition_char glue_test_char req_str with
+    | (head, _, own) => head ++ glue_own_open ++ own ++ glue_own_close ++ marker
+    end
+  else req_str ++ glue_semi ++ marker.
 
-(* the marker text an extras_require key stands for (source.py:455-466) *)
-Definition key_marker_text (e : string) : string :=
-  if startswith e key_env_prefix then drop 1 e
-  else key_prefix ++ replace key_esc_from key_esc_to e ++ key_suffix.
+(* an extras_require key "extra", ":marker" or "extra:marker" (setuptools' syntax), split at the
+   first ':' : the extra's name (stripped) and the environment-marker text *)
+Definition key_parts (e : string) : string * string :=
+  match partition_char key_sep_char e with (x, _, t) => (strip x, t) end.
+(* the marker texts the key stands for: "(<env marker>)" and/or  extra=="<name>"  *)
+Definition key_marker_parts (e : string) : list string :=
+  let xt := key_parts e in
+  List.app (if String.eqb (strip (snd xt)) "" then [] else [key_env_open ++ snd xt ++ key_env_close])
+           (if String.eqb (fst xt) "" then [] else [key_prefix ++ replace key_esc_from key_esc_to (fst xt) ++ key_suffix]).
 
 (* ------------------------------------------------------------------ declarations *)
 Inductive strs := SOne (s : string) | SMany (l : list string).
@@ -468,12 +477,16 @@ Fixpoint extras_loop (comb : combine_fn) (l : list (string * strs)) : rres (list
         end
   end.
 
-(* the code: str(cur_req) + "; "/" and " + marker text, parsed again, printed *)
+(* the code: no marker text -> the requirement itself; otherwise the composed text, parsed again, printed *)
 Definition combine_code : combine_fn := fun q e =>
-  match parse_req_text (compose_text (print_req q) (key_marker_text e)) with
-  | ROk q' => ROk (print_req q')
-  | RErr => RErr
-  | RUn => RUn
+  match key_marker_parts e with
+  | [] => ROk (print_req q)
+  | parts =>
+      match parse_req_text (compose_text (print_req q) (join key_join parts)) with
+      | ROk q' => ROk (print_req q')
+      | RErr => RErr
+      | RUn => RUn
+      end
   end.
 
 Definition harvest_with (comb : combine_fn) (d : decl) : hres :=
@@ -516,42 +529,29 @@ Definition harvest_with (comb : combine_fn) (d : decl) : hres :=
 Definition harvest (d : decl) : hres := harvest_with combine_code d.
 
 (* ------------------------------------------------------------------ the declared meaning *)
-(* setuptools' reading of an extras_require key: "extra", ":marker" or "extra:marker" *)
-Definition key_extra (e : string) : string := fst (fst (partition_char ":"%char e)).
-Definition key_env_text (e : string) : option string :=
-  match partition_char ":"%char e with
-  | (_, true, m) => Some m
-  | (_, false, _) => None
+(* the conjunction of: the requirement's own marker, the key's environment marker, extra == <name>;
+   each compound marker is a group (what setuptools itself writes into requires.txt / METADATA) *)
+Fixpoint and_list (m : mk) (r : list mk) : mlist :=
+  match r with
+  | [] => MOne m
+  | m2 :: r' => MCons m CAnd (and_list m2 r')
   end.
-
-(* redundant parentheses around a whole marker carry no meaning (and are not printed) *)
-Fixpoint unwrap (l : mlist) : mlist :=
-  match l with
-  | MOne (MGroup l') => unwrap l'
-  | _ => l
+Definition extra_atom (x : string) : mk :=
+  MAtom (mkAtom (OVar "extra") "==" (OLit (canon_name x))).
+Definition group_of (o : option mlist) : list mk := match o with Some l => [MGroup l] | None => [] end.
+Definition declared_marker (own env : option mlist) (x : string) : option mlist :=
+  match List.app (group_of own) (List.app (group_of env) (if String.eqb x "" then [] else [extra_atom x])) with
+  | [] => None
+  | m :: r => Some (and_list m r)
   end.
-Definition wrap (l : mlist) : mlist := if has_or l then MOne (MGroup l) else l.
-Definition conj (a b : option mlist) : option mlist :=
-  match a, b with
-  | None, x => x
-  | x, None => x
-  | Some x, Some y => Some (mapp (wrap (unwrap x)) CAnd (wrap (unwrap y)))
-  end.
-Definition extra_atom (e : string) : mlist :=
-  MOne (MAtom (mkAtom (OVar "extra") "==" (OLit (canon_name e)))).
 
 Definition combine_decl : combine_fn := fun q e =>
-  let ex := key_extra e in
+  let xt := key_parts e in
   let envm :=
-    match key_env_text e with
-    | None => ROk None
-    | Some t => match parse_marker_text t with POk l => ROk (Some l) | PErr => RErr | _ => RUn end
-    end in
+    if String.eqb (strip (snd xt)) "" then ROk None
+    else match parse_marker_text (snd xt) with POk l => ROk (Some l) | PErr => RErr | _ => RUn end in
   match envm with
-  | ROk em =>
-      let m1 := conj (r_marker q) em in
-      let m2 := if String.eqb ex "" then m1 else conj m1 (Some (extra_atom ex)) in
-      ROk (print_req (mkReq (r_head q) m2))
+  | ROk em => ROk (print_req (mkReq (r_head q) (declared_marker (r_marker q) em (fst xt))))
   | RErr => RErr
   | RUn => RUn
   end.
@@ -628,27 +628,20 @@ Fixpoint has_char (c : ascii) (s : string) : bool :=
 
 Definition marker_stable_b (m : mlist) : bool :=
   match parse_marker_text (fmt_list true m) with POk m' => mlist_eqb m' m | _ => false end.
-Definition simple_b (l : mlist) : bool :=
-  negb (has_or l) && match l with MOne (MGroup _) => false | _ => true end.
+(* the requirement's own marker: what str(cur_req) prints re-parses to the same marker *)
 Definition marker_ok_b (m : mlist) : bool :=
-  marker_stable_b m && simple_b m && negb (has_char "#"%char (fmt_list true m)).
-Definition ends_nonspace (t : string) : bool :=
-  match rev_str t with String c _ => negb (is_space c) | EmptyString => false end.
-Definition key_ok_b (q : preq) (e : string) : bool :=
-  (negb (String.eqb e "") && all_chars key_char_ok e)
-  || match e with
-     | String c t =>
-         Ascii.eqb c ":"%char && ends_nonspace t && negb (has_char "#"%char t)
-         && match parse_marker_text t with
-            | POk k => match r_marker q with None => true | Some _ => simple_b k end
-            | _ => false
-            end
-     | EmptyString => false
-     end.
+  marker_stable_b m && negb (has_char "#"%char (fmt_list true m)).
+(* the key: a name without quote / back-slash / control characters, an environment marker that parses *)
+Definition key_ok_b (e : string) : bool :=
+  let xt := key_parts e in
+  all_chars key_char_ok (fst xt)
+  && (String.eqb (strip (snd xt)) ""
+      || (negb (has_char "#"%char (snd xt))
+          && match parse_marker_text (snd xt) with POk _ => true | _ => false end)).
 Definition pair_ok_b (q : preq) (e : string) : bool :=
   head_ok (r_head q)
   && match r_marker q with None => true | Some m => marker_ok_b m end
-  && key_ok_b q e.
+  && key_ok_b e.
 
 Definition effective_extras (d : decl) : list (string * strs) :=
   match d_cfg d with None => d_extras d | Some c => overlay_extras d c end.
